@@ -140,7 +140,15 @@ class ColumnBackend(ArraySchemaBackend):
                         # errors that cannot be resolved by dropping rows
                         # were collected and are raised below
                         continue
-                    check_obj = validated_check_obj
+                    if is_table(validated_check_obj):
+                        check_obj = validated_check_obj
+                    else:
+                        # with parsers the parsed column comes back instead of
+                        # the dataframe: keep the rows that survived; the
+                        # column is parsed (once) below
+                        check_obj = check_obj[
+                            check_obj.index.isin(validated_check_obj.index)
+                        ]
 
                 validated_column = validate_column(
                     check_obj,
